@@ -209,7 +209,10 @@ def render_files(pars, per=4):
     files = {}
     for k in range(0, len(pars), per):
         src = ["//go:build cff", "", "package gen", "", "import (", '\t"context"', "", '\t"go.uber.org/cff"', ")", "", "var _ context.Context", ""]
-        for p in pars[k:k + per]:
+        # the program with the largest collection first: in a module whose go line predates per-iteration
+        # loop variables only the code before the file's first /*line*/ directive has the old semantics
+        group = sorted(pars[k:k + per], key=lambda q: -max([it.get("n", 0) for it in q.items if it["kind"] in ("slice", "map")] + [0]))
+        for p in group:
             src.append(p.render())
         files["pars%02d.go" % (k // per)] = "\n".join(src)
     files["partypes.go"] = "package gen\n\nimport \"strconv\"\n\ntype E struct{ S string }\n\ntype Elems []E\n\nfunc Itoa(i int) string { return strconv.Itoa(i) }\n"
